@@ -3,7 +3,8 @@
 // For every given Go source file of the repository's CURRENT working tree it writes a copy in
 // which each statement that performs a synchronisation operation directly (sync/atomic call,
 // method Load/Store/Add/Swap/CompareAndSwap/LoadOrStore on an atomic or sync.Map value,
-// sync.Pool Get/Put, Mutex Lock/RLock) is preceded by `verifMbPoint("<func>", "<op>")`.
+// sync.Pool Get/Put, Mutex Lock/RLock) or stores into a struct field / slice element is preceded by
+// `verifMbPoint("<func>", "<op>")`.
 // The copies replace the originals at build time through `go test -overlay`; nothing is written
 // into the repository. Points are named by enclosing function and operation, never by line.
 // No point is inserted before Unlock, so a logical thread never pauses while holding a mutex.
@@ -31,6 +32,7 @@ var atomicMethods = map[string]bool{"Load": true, "Store": true, "Add": true, "S
 	"LoadOrStore": true, "Get": true, "Put": true, "Lock": true, "RLock": true}
 
 var count int
+var plainWrites bool
 var ordinals = map[string]int{}
 
 func main() {
@@ -58,6 +60,9 @@ func main() {
 				if fd.Recv != nil && len(fd.Recv.List) == 1 {
 					name = recvName(fd.Recv.List[0].Type) + "." + name
 				}
+				// plain stores are yield points only in functions that synchronise themselves (helpers
+				// such as the container/heap adapter run under the caller's mutex or on the consumer only)
+				plainWrites = opOf(fd.Body) != ""
 				fd.Body.List = instrList(name, fd.Body.List)
 			}
 		}
@@ -196,6 +201,25 @@ func instrList(fn string, list []ast.Stmt) []ast.Stmt {
 			st.Stmt = inner[len(inner)-1]
 		case *ast.DeferStmt, *ast.GoStmt:
 			// not a yield point in the enclosing thread
+		case *ast.AssignStmt:
+			op = opOf(s)
+			if op == "" && plainWrites {
+				// a plain store into shared memory (struct field or slice/array element), e.g. cell.ctx = msg:
+				// the protocol decides who owns it, so it is a yield point as well
+				for _, l := range st.Lhs {
+					switch x := l.(type) {
+					case *ast.SelectorExpr:
+						op = "write:" + x.Sel.Name
+					case *ast.IndexExpr:
+						if sel, ok := x.X.(*ast.SelectorExpr); ok {
+							op = "write:" + sel.Sel.Name + "[]"
+						}
+					}
+					if op != "" {
+						break
+					}
+				}
+			}
 		default:
 			op = opOf(s)
 		}
